@@ -274,7 +274,31 @@ pub fn run(cfg: &Cfg) -> i32 {
         let mut scripts = Vec::new();
         let mut ok = true;
         for k in 0..nflows {
-            match std::panic::catch_unwind(std::panic::AssertUnwindSafe(|| solo(&c, &names[k], prefixes[k], &mut rng, max_ops))) {
+            // the same sub-story, same choices, alone in the DEFAULT flow of a fresh story: a named flow must play it
+            // exactly like that (own position, call stack and temporaries)
+            let mut rng_default = rng.clone();
+            let in_default = std::panic::catch_unwind(std::panic::AssertUnwindSafe(|| solo(&c, "", prefixes[k], &mut rng_default, max_ops)));
+            let in_named = std::panic::catch_unwind(std::panic::AssertUnwindSafe(|| solo(&c, &names[k], prefixes[k], &mut rng, max_ops)));
+            if !names[k].is_empty()
+                && let Ok(Ok(Some(d))) = &in_default
+                && !d.ops.is_empty()
+            {
+                rep.count("solo-runs-compared-default-vs-named-flow");
+                let same = matches!(&in_named, Ok(Ok(Some(n))) if n.ops.len() == d.ops.len()
+                    && n.recs.iter().zip(d.recs.iter()).all(|(a, b)| a.res == b.res && snap_eq(&a.snap, &b.snap)) && n.vars == d.vars);
+                if !same {
+                    let named_log = match &in_named {
+                        Ok(Ok(Some(n))) => recs_json(&n.recs),
+                        Ok(Ok(None)) => json!("the run in the named flow raised an error or warning (the run in the default flow did not)"),
+                        _ => json!("the run in the named flow failed"),
+                    };
+                    rep.violation("flows/solo-in-named-flow-differs-from-default-flow", json!({"program": c.name, "source": c.src, "flow": names[k], "entry": d.entry,
+                        "ops": d.ops.iter().map(|o| o.show()).collect::<Vec<_>>(), "default_flow_log": recs_json(&d.recs), "named_flow_log": named_log}));
+                    ok = false;
+                    break;
+                }
+            }
+            match in_named {
                 Ok(Ok(Some(s))) if !s.ops.is_empty() => scripts.push(s),
                 Ok(Ok(_)) => {
                     rep.inconclusive("sub-story-not-error-free-or-empty");
